@@ -143,6 +143,18 @@ func (propC15) Gen(r *Rng, idx int, tier string) *Scenario {
 	sc := &Scenario{Prop: "C15", Family: "schedules"}
 	dr := r.Fork("decl")
 	sc.Decl = genDecl(dr, c15Cfg())
+	if ur := r.Fork("unnamed"); ur.Chance(1, 6) {
+		// a command's extra group without a name (AddGroup("", ...))
+		var cands []*CmdSpec
+		for _, c := range sc.Decl.allCmds() {
+			if len(c.C.Groups) > 0 {
+				cands = append(cands, c.C)
+			}
+		}
+		if len(cands) > 0 {
+			cands[ur.Intn(len(cands))].Groups[0].Name = ""
+		}
+	}
 	sc.Decl.CompHandler = r.Fork("comp").Chance(3, 4)
 	if r.Fork("handlers").Chance(1, 4) {
 		sc.Decl.CmdHandler = "forward"
